@@ -57,6 +57,9 @@ def random_curve_spec(rng):
     if r2 < 0.3:
         spec, _ = G.random_bulged_rect(rng, center, size)
         return spec, "bulged-rect"
+    if r2 > 0.92:
+        spec, _ = G.random_teardrop(rng, (round(center[0]), round(center[1])), size)
+        return spec, "teardrop"
     spec, _ = G.random_blob(rng, center, size, degree=degree, mixed=mixed)
     if r2 < 0.4 and degree == 2 and not mixed:
         # the same quadratic chain given with degree-elevated (cubic) control polygons for some segments
